@@ -8,6 +8,7 @@ use std::path::{Path, PathBuf};
 pub use serde_json::{json, Value};
 
 pub mod dltgen;
+pub mod lcgen;
 
 // ---------------------------------------------------------------- PRNG
 #[derive(Clone)]
